@@ -202,3 +202,102 @@ def check(ctx):
         ctx.check(bool(s.calls_named(lambda n: lib.tail(n, 1) == "syscall_with_validation")), "C17.a", "syscall:delegates", "%s:%d" % (s.file, s.line), "", "syscall does not delegate to syscall_with_validation")
     except mir.AnchorLost as e:
         ctx.fail("C17.a", "anchor-lost:syscall", "", str(e))
+    _lifecycle(ctx, prog)
+    _sysname(ctx, prog)
+    _ext_siblings(ctx, prog)
+    _archetype_update(ctx, prog)
+
+
+def _lifecycle(ctx, prog):
+    """C17.e: a system created in place (IntoSystem::into_system) is initialized on every path before it is run"""
+    n = 0
+    for body in prog.bodies:
+        if not body.file.startswith("src/ecs/"):
+            continue
+        creates = [b for b, t, fr in body.iter_calls() if fr and lib.tail(mir.fn_name(fr), 2) == "IntoSystem::into_system"]
+        rn = [b for b, t, fr in body.iter_calls() if fr and lib.tail(mir.fn_name(fr), 2) in ("System::run", "System::run_unsafe", "System::run_without_applying_deferred")]
+        if not creates or not rn:
+            continue
+        inits = [b for b, t, fr in body.iter_calls() if fr and lib.tail(mir.fn_name(fr), 2) == "System::initialize"]
+        ctx.touch(body)
+        for c in creates:
+            n += 1
+            w = lib.path_between_avoiding(body, [lib.call_target(body, c)], rn, inits)
+            ctx.check(w is None, "C17.e", "%s:created-system-initialized-before-run" % lib.fkey(body), body.loc(c),
+                      "every path from IntoSystem::into_system to the run passes System::initialize",
+                      "a freshly created system can reach its run without System::initialize (it panics or runs with no state)",
+                      lib.render_path(body, w) if w else None)
+    ctx.floor("C17.e", n, 2, "in-place system creations that are run in the same function")
+
+
+def _sysname(ctx, prog):
+    """C17.b: the name key depends on the given id (and on the system type, checked above): independent keys"""
+    try:
+        sn = A.method(prog, "SysName", "new")
+    except mir.AnchorLost:
+        return
+    hashed = [b for b, t, fr in sn.iter_calls() if fr and lib.tail(mir.fn_name(fr), 1) == "hash" and t["args"] and lib.originates_from_arg(sn, t["args"][0], 1)]
+    fin = [b for b, t, fr in sn.iter_calls() if fr and lib.tail(mir.fn_name(fr), 1) == "finish"]
+    aggs = [st["rv"]["agg"] for b, i, st in sn.iter_stmts() if st["k"] == "assign" and "agg" in st["rv"] and st["rv"]["agg"].get("adt", "").endswith("::SysName")]
+    ok = bool(hashed) and bool(fin) and len(aggs) == 1 and any(lib.originates_from_call(sn, aggs[0]["ops"][0], f) for f in fin) \
+        and all(any(sn.dominates(h, f) for h in hashed) for f in fin)
+    ctx.check(ok, "C17.b", "SysName::new:key-depends-on-the-given-name", "%s:%d" % (sn.file, sn.line),
+              "the id is hashed into the key before finish()", "SysName::new does not hash the given id into the key: every name of one system type maps to the same state")
+
+
+def _ext_siblings(ctx, prog):
+    """C17.a: the deferred / forwarding variants of the syscall family call the variant of the same name (a `syscall`
+    that forwards to `syscall_once` silently loses the persistent state), on every path"""
+    names = ("syscall", "syscall_with_validation", "syscall_once", "syscall_once_with_validation")
+    n = 0
+    for body in prog.bodies:
+        if body.kind != "assoc_fn" or body.raw.get("name") not in names or not (body.raw.get("impl_trait") or "").endswith("SyscallExt"):
+            continue
+        st = re.sub(r"<.*$", "", body.raw.get("impl_self", ""))
+        if not st.endswith(("Commands", "EntityCommands")):
+            continue
+        nm = body.raw.get("name")
+        n += 1
+        ctx.touch(body)
+        # direct forwarding call, or a queued closure that makes the call
+        sites = []
+        for b, t, fr in body.iter_calls():
+            if fr and lib.tail(mir.fn_name(fr), 1) in names and mir.fn_name(fr) != body.path:
+                sites.append((body, b, lib.tail(mir.fn_name(fr), 1)))
+        queued = []
+        for b, t, fr in body.iter_calls():
+            if fr and lib.tail(mir.fn_name(fr), 2) == "Commands::queue" and len(t["args"]) > 1:
+                for o in origins(body, t["args"][1]):
+                    if o[0] == "agg":
+                        ag = body.blocks[o[1]]["stmts"][o[2]]["rv"]["agg"]
+                        cb = prog.body(ag.get("closure")) if ag["kind"] == "closure" else None
+                        if cb is not None:
+                            queued.append((b, cb))
+        key = "<%s as %s>::%s" % (st.split("::")[-1], body.raw.get("impl_trait").split("::")[-1], nm)
+        if queued:
+            qb, cb = queued[0]
+            inner = [(b, lib.tail(mir.fn_name(fr), 1)) for b, t, fr in cb.iter_calls() if fr and lib.tail(mir.fn_name(fr), 1) in names]
+            cnt, _, _ = lib.event_counts(cb, [b for b, _ in inner])
+            w = lib.path_to_return_avoiding(body, [0], [qb])
+            ctx.check(len(queued) == 1 and w is None and cnt == {1} and all(x == nm for _, x in inner), "C17.a", "%s:defers-the-same-variant" % key, body.loc(qb),
+                      "queues, on every path, a command that calls World::%s exactly once" % nm,
+                      "the deferred %s does not call World::%s exactly once on every path (calls: %s)" % (nm, nm, [x for _, x in inner]))
+        else:
+            cnt, _, _ = lib.event_counts(body, [b for _, b, _ in sites])
+            ctx.check(cnt == {1} and all(x == nm for _, _, x in sites), "C17.a", "%s:forwards-to-the-same-variant" % key, "%s:%d" % (body.file, body.line),
+                      "forwards to %s exactly once on every path" % nm, "%s does not forward to the variant of the same name exactly once (calls: %s)" % (nm, [x for _, _, x in sites]))
+    ctx.floor("C17.a", n, 8, "deferred / forwarding syscall variants (Commands, EntityCommands)")
+
+
+def _archetype_update(ctx, prog):
+    """C17.d: the non-exclusive arm refreshes the system's archetype access before run_unsafe (Bevy's contract for
+    run_unsafe: a query would otherwise miss entities in archetypes created since the previous run)"""
+    for body in prog.bodies:
+        ru = [b for b, t, fr in body.iter_calls() if fr and lib.tail(mir.fn_name(fr), 2) == "System::run_unsafe"]
+        if not ru or not body.file.startswith("src/"):
+            continue
+        up = [b for b, t, fr in body.iter_calls() if fr and lib.tail(mir.fn_name(fr), 2) == "System::update_archetype_component_access"]
+        ctx.touch(body)
+        for r in ru:
+            ctx.check(any(body.dominates(u, r) for u in up), "C17.d", "%s:archetype-access-updated-before-run_unsafe" % lib.fkey(body), body.loc(r),
+                      "update_archetype_component_access dominates run_unsafe", "run_unsafe is not preceded by update_archetype_component_access on every path")
